@@ -225,8 +225,8 @@ pub enum Act {
 /// (the adversarial run of a chunking comparison: the whole input arrives in pieces, not just its beginning)
 pub static FLUSH_PIECE: std::sync::atomic::AtomicUsize = std::sync::atomic::AtomicUsize::new(1_000_000);
 
-/// pending control value for the wrapper blocks (`usize::MAX` = none)
-pub static POKE: std::sync::atomic::AtomicUsize = std::sync::atomic::AtomicUsize::new(usize::MAX);
+/// pending control calls for the wrapper blocks, oldest first
+pub static POKE: std::sync::Mutex<Vec<usize>> = std::sync::Mutex::new(Vec::new());
 
 pub fn show_act(a: &Act) -> String {
     match a {
@@ -461,7 +461,7 @@ pub fn run_case_full(mut rig: Rig, ins: &[InSpec], acts: &[Act], adaptive_flush:
                 }
             }
             Act::Poke(k) => {
-                POKE.store(k, std::sync::atomic::Ordering::SeqCst);
+                POKE.lock().unwrap().push(k);
             }
             Act::Work => {
                 if dead || errored {
